@@ -43,7 +43,7 @@ Section CheckCC.
     else match find (fun m => negb (memb_msg m obs_out)) replies with
          | Some m => CVMissingReply m
          | None =>
-             match find (fun m => negb (emit_okb id n' m)) extra with
+             match find (fun m => negb (emit_cc_okb id n' m)) extra with
              | Some m => CVBadEmit m
              | None =>
                  if proj_eqb (proj_of n') obs && conf_eqb (node_cfg boot n') obs_cfg
@@ -58,7 +58,7 @@ Section CheckCC.
     intros x id ev obs_out obs obs_cfg x' H. unfold check_step_cc in H.
     destruct (negb (cev_okb x id ev)) eqn:Eev; [discriminate|]. apply negb_false_iff in Eev.
     destruct (find (fun m => negb (memb_msg m obs_out)) (snd (exec_cc boot page1 id ev (cx_nodes x id)))); [discriminate|].
-    destruct (find (fun m => negb (emit_okb id (fst (fst (exec_cc boot page1 id ev (cx_nodes x id)))) m))
+    destruct (find (fun m => negb (emit_cc_okb id (fst (fst (exec_cc boot page1 id ev (cx_nodes x id)))) m))
                    (filter (fun m => negb (memb_msg m (snd (exec_cc boot page1 id ev (cx_nodes x id))))) obs_out)) eqn:Ef; [discriminate|].
     destruct (proj_eqb _ obs && conf_eqb _ obs_cfg); [|discriminate]. injection H as <-.
     apply CXStep.
@@ -76,7 +76,7 @@ Section RunCC.
 
   Definition model_step_cc (x : cxstate) (id : nat) (ev : event) (extra : list msg) : option cxstate :=
     let r := exec_cc boot page1 id ev (cx_nodes x id) in
-    if cev_okb x id ev && forallb (emit_okb id (fst (fst r))) extra
+    if cev_okb x id ev && forallb (emit_cc_okb id (fst (fst r))) extra
     then Some (mkCX (upd (cx_nodes x) id (fst r)) (cx_msgs x ++ snd r ++ extra))
     else None.
 
@@ -93,7 +93,7 @@ Section RunCC.
   Lemma model_step_cc_sound : forall x id ev extra x', model_step_cc x id ev extra = Some x' -> cxstep boot page1 x x'.
   Proof.
     intros x id ev extra x' H. unfold model_step_cc in H.
-    destruct (cev_okb x id ev && forallb (emit_okb id (fst (fst (exec_cc boot page1 id ev (cx_nodes x id))))) extra) eqn:E; [|discriminate].
+    destruct (cev_okb x id ev && forallb (emit_cc_okb id (fst (fst (exec_cc boot page1 id ev (cx_nodes x id))))) extra) eqn:E; [|discriminate].
     injection H as <-. apply andb_true_iff in E as [E1 E2]. apply CXStep; [|exact E2].
     intros m ->. cbn [cev_okb] in E1. apply andb_true_iff in E1 as [A B].
     split; [apply memb_In; exact A|apply Nat.eqb_eq; exact B].
